@@ -181,6 +181,7 @@ def run(chk):
         cases += mask_cases(chk, 8)
     check_cases(chk, cases)
     check_short_coefficients(chk)
+    check_cases(chk, codec.large_count_cases(chk))
     codec.check_inplace(chk, "C02", 200 if chk.tier == "quick" else 3000)
     boundary_labels(chk)
     check_capture(chk)
